@@ -170,6 +170,27 @@ def run_rsim_batches(scr, binary, seed, n_batches, traces_per_batch, steps, comb
     return results
 
 
+def c17_signature(lines):
+    """Structural signature of a progress failure (for known findings): looks at the last logged state of
+    every replica. Returns None when the failure does not have a known shape."""
+    last = {}
+    for x in lines:
+        try:
+            e = json.loads(x)
+        except Exception:
+            continue
+        if e.get("post"):
+            last[e["n"]] = e["post"]
+    up = {n: p for n, p in last.items() if p.get("up")}
+    for n, p in up.items():
+        if n in p["mem"]["rm"]:                      # n has applied its own removal
+            for o, q in up.items():
+                if o != n and n in q["mem"]["v"] and len(q["mem"]["v"]) == 2 and q["role"] in ("C", "P", "F") \
+                        and len(p["log"]) + p.get("sidx", 0) > len(q["log"]) + q.get("sidx", 0):
+                    return "C17:self-removed-leader-with-longer-log-blocks-the-last-voter"
+    return None
+
+
 def judge(prop, verdict, results, scr):
     """Turn monitor violations / panics into VIOLATION lines for `prop`; report drift."""
     names = set(PROPS[prop])
@@ -187,7 +208,10 @@ def judge(prop, verdict, results, scr):
                               "progress": meta.get("progress", 0),
                               "violated": name, "at_step": step,
                               "events": [json.loads(x) for x in lines[:step + 1]][-40:]})
-            verdict.violation("%s:%s" % (prop, name),
+            sig = "%s:%s" % (prop, name)
+            if prop == "C17":
+                sig = c17_signature(lines[:step + 1]) or sig
+            verdict.violation(sig,
                               "%s false on an observed state of the real code (trace %d step %d)" % (name, tid, step), rp)
         for (tid, msg) in rep["panics"]:
             owners = []
